@@ -34,8 +34,12 @@ tvars == <<st, l>>
 AbsAct(a) == IF a.a = "T" THEN [a |-> "T", k |-> a.k, d |-> a.d]
              ELSE IF a.a = "F" THEN [a |-> "F", ty |-> a.tlv.ty, len |-> a.tlv.len]
              ELSE [a |-> a.a, t |-> a.t, seq |-> a.seq]
+                  @@ (IF a.t = "Announce" THEN [gm |-> a.gm, steps |-> a.steps, tp |-> a.tp, tlvs |-> a.tlvs] ELSE <<>>)
+                  @@ (IF "req" \in DOMAIN a THEN [req |-> a.req] ELSE <<>>)
 AbsOut(o) == [i \in 1..Len(o) |-> AbsAct(o[i])]
 AbsClk(c) == [i \in 1..Len(c) |-> <<c[i][1], c[i][2]>>]
+AbsFlt(f) == [i \in 1..Len(f) |-> IF f[i].k = "meas" THEN [p |-> f[i].p, k |-> "meas", off |-> ~IsNoneV(f[i].off), dly |-> ~IsNoneV(f[i].dly), pdly |-> ~IsNoneV(f[i].pdly)]
+                                  ELSE [p |-> f[i].p, k |-> f[i].k]]
 FmlOf(s, p) == [i \in 1..Len(s.fml[p]) |->
                   [id |-> s.fml[p][i].id,
                    msgs |-> [k \in 1..Len(s.fml[p][i].msgs) |-> [seq |-> s.fml[p][i].msgs[k].c.seq, age |-> s.fml[p][i].msgs[k].age, steps |-> s.fml[p][i].msgs[k].c.steps]]]]
@@ -44,26 +48,36 @@ FmlOf(s, p) == [i \in 1..Len(s.fml[p]) |->
 TReset == /\ l <= Len(Rec) /\ Rec[l].e = "reset"
           /\ st' = Init0 /\ l' = l + 1
 
+\* the fields in which a logged observation departs from the specification's step (named as in the edge replay, so that
+\* the same ownership rule decides which property a departure belongs to)
+M(name, differs) == IF differs THEN {name} ELSE {}
+ActMis(o, e) ==
+  IF o = e THEN {}
+  ELSE IF o.a # e.a THEN {"out.len"}
+  ELSE IF e.a = "T" THEN {"out.T"}
+  ELSE IF e.a = "F" THEN {"out.F"}
+  ELSE IF o.t # e.t \/ DOMAIN o # DOMAIN e THEN {"out." \o e.t}
+  ELSE {"out." \o e.t \o "." \o f : f \in {x \in DOMAIN e : o[x] # e[x]}}
+SeqMis(o, e) == IF Len(o) # Len(e) THEN {"out.len"} ELSE UNION {ActMis(o[i], e[i]) : i \in 1..Len(e)}
+Mismatch(r, s2, res) ==
+  M("pst", r.obs.pst # s2.pst) \cup M("ppi", r.obs.ppi # s2.ppi) \cup M("gm", r.obs.gm # s2.gm) \cup M("steps", r.obs.steps # s2.steps)
+  \cup M("tp", r.obs.tp # s2.tp) \cup M("path", r.obs.path # s2.path) \cup M("dds.so", r.obs.so # s2.so) \cup M("snap.mpd", r.obs.mpd # s2.mpd)
+  \cup M("snap.nseq", r.obs.nseq # [p \in Ports |-> <<s2.nseq[p].ann, s2.nseq[p].sync, s2.nseq[p].dreq, s2.nseq[p].pdreq>>])
+  \cup M("snap.fml", r.obs.fml # [p \in Ports |-> FmlOf(s2, p)])
+  \cup M("rng", r.obs.rng # s2.rngc)
+  \cup (IF "pend" \in DOMAIN res
+        THEN (IF "pend" \in DOMAIN r.obs THEN M("pend", r.obs.pend # [p \in Ports |-> AbsOut(res.pend[p])]) ELSE {"pend"})
+        ELSE (IF "out" \in DOMAIN r.obs THEN SeqMis(r.obs.out, AbsOut(res.out)) ELSE {"out.len"}))
+  \cup M("clk", r.obs.clk # AbsClk(res.clk))
+  \cup M("flt", r.obs.flt # AbsFlt(res.flt))
+
 TCall ==
   /\ l <= Len(Rec) /\ Rec[l].e # "reset"
   /\ LET r == Rec[l]
          res == Step(st, r.ev)
-         s2 == res.s
-     IN /\ st' = s2
-        /\ r.obs.pst = s2.pst
-        /\ r.obs.ppi = s2.ppi
-        /\ r.obs.gm = s2.gm
-        /\ r.obs.steps = s2.steps
-        /\ r.obs.tp = s2.tp
-        /\ r.obs.path = s2.path
-        /\ r.obs.so = s2.so
-        /\ r.obs.mpd = s2.mpd
-        /\ r.obs.nseq = [p \in Ports |-> <<s2.nseq[p].ann, s2.nseq[p].sync, s2.nseq[p].dreq, s2.nseq[p].pdreq>>]
-        /\ r.obs.fml = [p \in Ports |-> FmlOf(s2, p)]
-        /\ r.obs.rng = s2.rngc
-        /\ (IF "pend" \in DOMAIN res THEN r.obs.pend = [p \in Ports |-> AbsOut(res.pend[p])] ELSE r.obs.out = AbsOut(res.out))
-        /\ r.obs.clk = AbsClk(res.clk)
-  /\ l' = l + 1
+         mm == Mismatch(r, res.s, res)
+     IN IF mm = {} THEN st' = res.s /\ l' = l + 1
+        ELSE PrintT(<<"MISMATCH", l, mm>>) /\ FALSE
 
 TInit == st = Init0 /\ l = 1
 TNext == TReset \/ TCall
